@@ -330,42 +330,50 @@ Theorem zbig_ext_rot (n : nat) (a : Z) (acc : list poly) :
   zbig n (ext_rot n a acc) = zrot a (zbig n acc).
 Proof.
   intros Hn He Hacc. unfold zbig. rewrite ext_rot_length.
-  set (e := length acc) in *. set (E := Z.of_nat e).
-  set (t := 2 * Z.of_nat n * E).
-  assert (HT : 0 < t) by (unfold t, E; nia).
-  set (a_pos := (a + t) mod t). set (a_hi := a_pos / E). set (a_lo := a_pos mod E).
-  assert (Hlo : 0 <= a_lo < E) by (apply Z.mod_pos_bound; unfold E; lia).
-  assert (Hsp : a_pos = a_hi * E + a_lo) by (unfold a_hi, a_lo; pose proof (Z.div_mod a_pos E ltac:(unfold E; lia)); lia).
-  assert (Hbl : length (interleave (n * e) acc) = (n * e)%nat) by apply interleave_length.
+  assert (Hbl : length (interleave (n * length acc) acc) = (n * length acc)%nat) by apply interleave_length.
   apply nthZ_ext; [rewrite zrot_length, !interleave_length; reflexivity|].
   intros u Hu. rewrite interleave_length in Hu.
   rewrite zrot_nth by (rewrite Hbl; auto).
-  rewrite interleave_nth by auto. rewrite ext_rot_length. fold e.
+  rewrite interleave_nth by auto. rewrite ext_rot_length.
+  unfold ext_rot. cbv zeta.
+  set (e := length acc) in *. set (E := Z.of_nat e).
+  set (t := 2 * Z.of_nat n * E).
+  assert (HT : 0 < t) by (unfold t, E; nia).
+  set (a_pos := (a + t) mod t).
+  assert (Hcong : (Z.of_nat u - a) mod (2 * Z.of_nat (length (interleave (n * e) acc)))
+                = (Z.of_nat u - a_pos) mod (2 * Z.of_nat (length (interleave (n * e) acc)))).
+  { rewrite Hbl. replace (2 * Z.of_nat (n * e)) with t by (unfold t, E; rewrite Nat2Z.inj_mul; ring).
+    unfold a_pos. apply sub_mod_pos. exact HT. }
+  clearbody a_pos. clear HT. clearbody t.
+  set (a_hi := a_pos / E). set (a_lo := a_pos mod E).
+  assert (Hlo : 0 <= a_lo < E) by (apply Z.mod_pos_bound; unfold E; lia).
+  assert (Hsp : a_pos = a_hi * E + a_lo) by (unfold a_hi, a_lo; pose proof (Z.div_mod a_pos E ltac:(unfold E; lia)); lia).
+  clearbody a_hi a_lo.
   set (i := (u mod e)%nat). set (tt := (u / e)%nat).
   assert (Hi : (i < e)%nat) by (apply Nat.mod_upper_bound; lia).
   assert (Ht : (tt < n)%nat) by (apply Nat.div_lt_upper_bound; lia).
   assert (Hutz : Z.of_nat u = Z.of_nat tt * E + Z.of_nat i).
   { pose proof (Nat.div_mod u e ltac:(lia)). unfold tt, i, E. lia. }
-  assert (Hcong : (Z.of_nat u - a) mod (2 * Z.of_nat (length (interleave (n * e) acc)))
-                = (Z.of_nat u - a_pos) mod (2 * Z.of_nat (length (interleave (n * e) acc)))).
-  { rewrite Hbl. replace (2 * Z.of_nat (n * e)) with t by (unfold t, E; rewrite Nat2Z.inj_mul; ring).
-    unfold a_pos. apply sub_mod_pos. exact HT. }
-  rewrite (zext_congr _ _ (Z.of_nat u - a_pos)) by (rewrite ?Hbl; auto; nia).
-  unfold ext_rot. cbv zeta. fold e E t a_pos a_hi a_lo.
+  clearbody i tt.
+  rewrite (zext_congr _ _ (Z.of_nat u - a_pos)) by (first [exact Hcong | rewrite Hbl; nia]).
   rewrite nth_map_seq by auto.
   destruct (Z.ltb_spec (Z.of_nat i) a_lo).
   - set (j := (Z.to_nat (E - a_lo) + i)%nat).
     assert (Hj : (j < e)%nat) by (unfold j, E in *; lia).
-    rewrite zrot_nth by (rewrite shaped_nth; auto).
+    assert (Hjz : Z.of_nat j = E - a_lo + Z.of_nat i) by (unfold j; lia).
+    clearbody j.
+    rewrite zrot_nth by (rewrite (shaped_nth n acc j Hacc Hj); exact Ht).
     replace (Z.of_nat u - a_pos) with ((Z.of_nat tt - (a_hi + 1)) * Z.of_nat (length acc) + Z.of_nat j)
-      by (fold e E; assert (Z.of_nat j = E - a_lo + Z.of_nat i) by (unfold j; lia); lia).
-    rewrite zext_interleave by auto. reflexivity.
+      by (fold e E; lia).
+    unfold e in *. rewrite zext_interleave by auto. reflexivity.
   - set (j := (i - Z.to_nat a_lo)%nat).
     assert (Hj : (j < e)%nat) by (unfold j; lia).
-    rewrite zrot_nth by (rewrite shaped_nth; auto).
+    assert (Hjz : Z.of_nat j = Z.of_nat i - a_lo) by (unfold j; lia).
+    clearbody j.
+    rewrite zrot_nth by (rewrite (shaped_nth n acc j Hacc Hj); exact Ht).
     replace (Z.of_nat u - a_pos) with ((Z.of_nat tt - a_hi) * Z.of_nat (length acc) + Z.of_nat j)
-      by (fold e E; assert (Z.of_nat j = Z.of_nat i - a_lo) by (unfold j; lia); lia).
-    rewrite zext_interleave by auto. reflexivity.
+      by (fold e E; lia).
+    unfold e in *. rewrite zext_interleave by auto. reflexivity.
 Qed.
 
 (* ---- one block: at most one selected coefficient ---- *)
@@ -430,7 +438,7 @@ Theorem cggi_extended_result (n block : nat) (b : Z) (av sv : list Z) (lutp : li
 Proof.
   intros Hn He Hs Hall Hu.
   destruct (cggi_extended_rot n block b av sv lutp Hn He Hs Hall) as [HL HZ].
-  rewrite <- HZ. unfold zbig. rewrite HL.
+  rewrite <- HZ. unfold zbig. unfold poly in *. rewrite HL.
   rewrite interleave_nth by nia. rewrite HL.
   rewrite Nat.mod_mul, Nat.div_mul by lia. reflexivity.
 Qed.
